@@ -72,3 +72,8 @@ package verifext
 
 //@ extern func spectypes.ComputeSignatureDomain(domain spectypes.DomainType, sigType spectypes.SignatureType) (result spectypes.SignatureDomain)
 //@ pure
+
+//@ extern func (m *specqbft.Message) Validate() (result error)
+//@ pure
+//@ ensures result == nil ==> len(m.Identifier) != 0 && m.MsgType <= specqbft.RoundChangeMsgType
+//@ ensures result == nil ==> snd(m.GetRoundChangeJustifications()) == nil && snd(m.GetPrepareJustifications()) == nil
